@@ -26,10 +26,16 @@ def run(tier, seed):
     res = vlib.run_vh_sharded(['resume-tamper', '-seed', str(seed), '-stride', str(stride), '-budget', budget], shards, timeout=2400)
     for viol in res['violations']:
         v.violation(viol['sig'], viol.get('replay'))
+    # the damaged highest chunk beyond the 4 GiB mark (sparse file, hash offsets cross 2^32)
+    sp = vlib.run_vh_sharded(['xfer-special', '-seed', str(seed), '-groups', 'largetorn'], 2, timeout=1800)
+    for viol in sp['violations']:
+        if viol['sig'].get('property') == 'C06':
+            v.violation(viol['sig'], viol.get('replay'))
     if res['drift']:
         raise vlib.HarnessTrouble("tamper driver could not build its template: %s" % str(res['drift_samples'][:1])[:400])
     v.coverage = dict(evaluations=res['behaviours'], distinct_nontrivial=res['distinct'],
                       rule="one resumed transfer per tampered state of a real interrupted directory; non-trivial = every case except the untouched control",
+                      torn_chunk_beyond_4GiB=dict(runs=sp['behaviours'], outcomes=sp['extra'].get('outcomes')),
                       samples=res['samples'][:8], by_kind=res['extra'].get('by_kind'), outcomes=res['extra'].get('outcomes'),
                       exhaustive=(stride == 1 and not res['extra'].get('skipped_over_budget')),
                       tlc=dict(states=mc['states'], transitions=mc['transitions'], runs=mc['runs'], negative_controls_refuted=neg))
